@@ -10,25 +10,59 @@ from harness.props import c01
 META = {
     "id": "C04",
     "level": "proof",
-    "technique": "Coq proof (graph lemma for all bond graphs / all isometries) + vm_compute table obligation over every template x dihedral regenerated from the topology XML; exhaustive correspondence of the moveable-set model with residue.py/biomolecule.py; coordinate-writer monitor and rigid-geometry oracle on real runs",
+    "technique": "Coq proof (graph lemma for all bond graphs / all isometries; model of Debump.debump_residue + pick_dihedral_angle + set_dihedral_angle with every geometric decision as an oracle, theorems for ALL oracle answers) + vm_compute table obligation over every template x dihedral regenerated from the topology XML; exhaustive correspondence of the moveable-set model with residue.py/biomolecule.py; differential execution of the debump model against debump_residue on real residues with scripted answers (bit-exact angles); coordinate-writer monitor and rigid-geometry oracle on real runs",
     "level_text": (
         "Proved for ALL bond graphs and ANY distance-preserving motion fixing the axis atoms: moving a set that meets the boolean "
         "rigidity conditions preserves every bond length and bond angle and leaves all other atoms bit-identical. A generated obligation "
         "(vm_compute over the topology regenerated from /repo) shows the conditions for every amino-acid template (all terminal and "
         "protonation variants) x every dihedral x terminus flags, incl. 'no backbone atom is selected'. The selection model is tied to "
         "set_reference_distance + get_moveable_names by exhaustive comparison on all templates and on every call observed in real runs. "
-        "That the motion applied is a rotation about the axis is C15's theorem (rot_isometry / rot_fixes_axis); that no other code writes "
-        "input heavy atoms, and the no-op modes, are observed on real runs (monitor), not proved. Inter-residue S-S bonds are outside the lemma."
+        "Debump.debump_residue is modelled (Model/Debump.v: attempt loop, pick_dihedral_angle incl. oldnum rotation, the 71-step scan with "
+        "early exit, best-angle bookkeeping with the SMALL_NUMBER tie rule, final set to bestangle; scores, conflict names and the dihedral "
+        "measured after each rotation are oracle inputs over an arbitrary world): proved for ALL oracle answers that the coordinates after "
+        "debump_residue are exactly the recorded rotations applied in order (geometry as the oracle), that under the table conditions every "
+        "bond length and bond angle is kept and atoms in no moveable set keep their coordinates, that at most 10*72 set_dihedral_angle calls "
+        "happen and no error path is taken, and (angles over R, measured dihedral = requested angle mod 360 as hypothesis) that each "
+        "dihedral's rotation angles sum to final-minus-initial stored angle mod 360 and a fruitless attempt ends where it started. "
+        "The model is tied to the code by running debump_residue on real residues with scripted answers and comparing result, every "
+        "(anglenum, angle) passed to set_dihedral_angle, every rotation angle passed to quatfit.qchichange and the final residue.dihedrals "
+        "bit for bit. NOT proved: that the motion applied is a rotation about the axis (C15's theorems rot_isometry / rot_fixes_axis over R; "
+        "float rounding unverified); that no other code writes input heavy atoms, and the no-op modes (observed by the monitor on real runs); "
+        "the flip path (hydrogens/structures.py) is covered by the monitor and geometry oracle only. Inter-residue S-S bonds are outside the lemma."
     ),
     "level_note": (
-        "Trusted: Coq kernel+vm_compute; generators gen/topology.py, gen/moves_table.py; hand model Model/Moves.v (tied by exhaustive differential "
-        "execution); the monitor (monkeypatches Atom.__setattr__, Debump.set_dihedral_angle); float rounding of the rotation is not verified "
-        "(geometry compared with 1e-6 tolerance)."
+        "Trusted: Coq kernel+vm_compute; generators gen/topology.py, gen/moves_table.py; hand models Model/Moves.v and Model/Debump.v (tied by "
+        "differential execution); Model.Debump.check_debump (the in-Coq comparison of model and code traces); the monitor (monkeypatches "
+        "Atom.__setattr__, Debump.set_dihedral_angle, Debump.score_dihedral_angle, Debump.find_residue_conflicts, quatfit.qchichange on harness "
+        "objects only); float rounding of the rotation is not verified (geometry compared with 1e-6 tolerance)."
     ),
     "design_ref": "DESIGN.md 4 C04",
 }
 
-THEOREMS = ["C04_bond_preserved", "C04_angle_preserved", "C04_frame", "C04_heavy_subtree_table", "C04_nonvacuous", "C04_rank_selection_refuted"]
+THEOREMS = [
+    "C04_bond_preserved",
+    "C04_angle_preserved",
+    "C04_frame",
+    "C04_heavy_subtree_table",
+    "C04_nonvacuous",
+    "C04_rank_selection_refuted",
+    "C04_debump_ops_are_rotations",
+    "C04_debump_rigid",
+    "C04_rotation_list_rigid",
+    "C04_debump_hypothesis_from_table",
+    "C04_debump_backbone_fixed",
+    "C04_debump_terminates_within",
+    "C04_debump_net_rotation",
+    "C04_debump_attempt_ends_at_bestangle",
+    "C04_debump_nonvacuous",
+]
+
+# real numbers are used only by the net-rotation theorems (angles modulo 360 over R)
+ALLOWED_AXIOMS = [
+    "ClassicalDedekindReals.sig_forall_dec",
+    "ClassicalDedekindReals.sig_not_dec",
+    "FunctionalExtensionality.functional_extensionality_dep",
+]
 
 HEADER = "From Coq Require Import List String Bool PArith.\nFrom PV Require Import Model.ForceField Model.Topology Model.Moves Generated.Topology Generated.MovesTable.\nImport ListNotations.\nOpen Scope string_scope.\n"
 
@@ -196,6 +230,14 @@ def real_run(ctx, pdb, extra):
         state["armed"] = True
         return r
 
+    orig_debump = pdebump.Debump.debump_residue
+    real_ties = []
+
+    def w_debump(self, residue, conflict_names):
+        # the same recorders as the scripted walks, but passing the REAL answers through
+        return traced_debump(self, residue, conflict_names, orig_debump, real_ties)
+
+    pdebump.Debump.debump_residue = w_debump
     pdebump.Debump.set_dihedral_angle = w_sda
     pstruct.Atom.__setattr__ = w_setattr
     pmain.setup_molecule = w_setup
@@ -207,6 +249,7 @@ def real_run(ctx, pdb, extra):
         err = f"{type(e).__name__}: {e}"
     finally:
         pdebump.Debump.set_dihedral_angle = orig_sda
+        pdebump.Debump.debump_residue = orig_debump
         pmain.setup_molecule = orig_setup
         if had_setattr:
             pstruct.Atom.__setattr__ = orig_setattr
@@ -214,7 +257,7 @@ def real_run(ctx, pdb, extra):
             del pstruct.Atom.__setattr__
     for f in d.glob("g.*"):
         f.unlink()
-    return {"calls": calls, "writes": writes, "initial": initial, "bio": bio, "err": err, "orig_key": orig_key}
+    return {"calls": calls, "writes": writes, "initial": initial, "bio": bio, "err": err, "orig_key": orig_key, "debump_ties": real_ties}
 
 
 BACKBONE_CAP = {"N", "CA", "C", "O", "OXT"}
@@ -362,18 +405,24 @@ def _rigid_failures(res, before, after):
     return out
 
 
-def run_walk(db, res, script, conflicts0):
+def run_walk(db, res, script, conflicts0, trace=None):
     """Run Debump.debump_residue(res) with scripted answers. `script` = list of attempts,
-    each {"mode": none|improve|zero-conflict|zero-clear, "k": step, "conf": [names]}."""
+    each {"mode": none|improve|improve2|tie|zero-conflict|zero-clear, "k": step, "conf": [names]}.
+    `trace` (a dict) receives every oracle answer in call order (scores, conflict lists, the
+    dihedral stored by each set_dihedral_angle) and every (anglenum, angle) passed to
+    set_dihedral_angle: together with the initial residue.dihedrals and the moveable sets these
+    answers determine the run, in the code and in Model.Debump.debump_residue."""
     state = {"attempt": -1, "call": 0}
+    if trace is None:
+        trace = {}
+    trace.update({"scores": [], "confs": [], "meas": [], "calls": [], "deltas": [], "score_args": [], "result": None})
+    from pdb2pqr import quatfit as pquat
 
     def attempt():
         i = state["attempt"]
         return script[i] if 0 <= i < len(script) else {"mode": "none", "k": 1, "conf": []}
 
-    def score(residue, anglenum):
-        c = state["call"]
-        state["call"] += 1
+    def score_value(c):
         if c == 0:
             return 10.0  # bestscore of this attempt
         a = attempt()
@@ -381,15 +430,29 @@ def run_walk(db, res, script, conflicts0):
             return 5.0
         if a["mode"] == "improve2" and c in (a["k"], a["k"] + 7):
             return 5.0 if c == a["k"] else 2.5
+        if a["mode"] == "tie" and c in (a["k"], a["k"] + 3):
+            # smaller than bestscore, but by less than SMALL_NUMBER / by more
+            return 10.0 - 5e-8 if c == a["k"] else 10.0 - 2e-7
         if a["mode"].startswith("zero") and c == a["k"]:
             return 0
         return 10.0 + 0.001 * c
 
+    def score(residue, anglenum):
+        c = state["call"]
+        state["call"] += 1
+        v = score_value(c)
+        trace["scores"].append(float(v))
+        trace["score_args"].append(anglenum)
+        return v
+
     def conflicts(residue, write_conflict_info=False):
         a = attempt()
         if a["mode"] == "zero-clear" and state["call"] <= a["k"] + 1 and state.get("inscan"):
-            return []
-        return list(a["conf"])
+            out = []
+        else:
+            out = list(a["conf"])
+        trace["confs"].append(list(out))
+        return out
 
     orig_pick = res.pick_dihedral_angle
 
@@ -399,13 +462,31 @@ def run_walk(db, res, script, conflicts0):
         state["inscan"] = True
         return orig_pick(conflict_names, oldnum)
 
+    orig_set = type(db).set_dihedral_angle
+
+    orig_qchi = pquat.qchichange
+
+    def qchi(initcoords, refcoords, angle):
+        trace["deltas"].append((state["anglenum"], float(angle)))  # the rotation actually applied
+        return orig_qchi(initcoords, refcoords, angle)
+
+    def set_angle(residue, anglenum, angle):
+        trace["calls"].append((anglenum, float(angle)))
+        state["anglenum"] = anglenum
+        orig_set(db, residue, anglenum, angle)
+        trace["meas"].append(float(residue.dihedrals[anglenum]))
+
     db.score_dihedral_angle = score
     db.find_residue_conflicts = conflicts
+    db.set_dihedral_angle = set_angle
     res.pick_dihedral_angle = pick
+    pquat.qchichange = qchi
     try:
-        return db.debump_residue(res, list(conflicts0))
+        trace["result"] = db.debump_residue(res, list(conflicts0))
+        return trace["result"]
     finally:
-        del db.score_dihedral_angle, db.find_residue_conflicts, res.pick_dihedral_angle
+        pquat.qchichange = orig_qchi
+        del db.score_dihedral_angle, db.find_residue_conflicts, db.set_dihedral_angle, res.pick_dihedral_angle
 
 
 def gen_script(rng, res, side):
@@ -413,23 +494,239 @@ def gen_script(rng, res, side):
     n = rng.choice([1, 2, 2, 3, 3, 4, 6, 10])
     script = []
     for _ in range(n):
-        mode = rng.choice(["none", "none", "improve", "improve", "improve2", "zero-conflict", "zero-clear"])
+        mode = rng.choice(["none", "none", "improve", "improve", "improve2", "tie", "zero-conflict", "zero-clear"])
         conf = rng.sample(movers, rng.randint(1, min(3, len(movers)))) if rng.random() < 0.9 else []
         script.append({"mode": mode, "k": rng.choice([1, 2, 17, 35, 36, 70, 71]), "conf": conf})
     conflicts0 = rng.sample(movers, rng.randint(1, min(3, len(movers))))
     return script, conflicts0
 
 
-def debump_walk_case(ctx, db, res, script, conflicts0, label):
+# ---- tie of Model.Debump with debump.Debump.debump_residue / residue.pick_dihedral_angle ----
+
+DEBUMP_HEADER = (
+    "From Coq Require Import List String Bool PArith ZArith PrimFloat.\n"
+    "From PV Require Import Model.ForceField Model.Moves Model.Quatfit Model.Debump.\nImport ListNotations.\n"
+)
+
+
+def fshow(f):
+    """A python float in the format of Model.Quatfit.show_float (exact: sign, 53-bit mantissa, exponent)."""
+    f = float(f)
+    if f != f:
+        return "nan"
+    if f in (float("inf"), float("-inf")):
+        return "+inf" if f > 0 else "-inf"
+    sg = "-" if math.copysign(1.0, f) < 0 else "+"
+    if f == 0:
+        return sg + "0e-2154"
+    m, e = math.frexp(abs(f))
+    return f"{sg}{int(math.ldexp(m, 53))}e{e - 53}"
+
+
+def fdec(tok):
+    if tok in ("nan", "+inf", "-inf", "None"):
+        return {"nan": float("nan"), "+inf": float("inf"), "-inf": float("-inf"), "None": None}[tok]
+    m, e = tok[1:].split("e")
+    return math.copysign(math.ldexp(int(m), int(e)), -1.0 if tok[0] == "-" else 1.0)
+
+
+def residue_dihedral_terms(res, ids):
+    """Coq terms for the residue's dihedral list (axis atoms + moveable names of the real code)."""
+
+    def I(n):
+        return f"{ids.setdefault(n, len(ids) + 1)}%positive"
+
+    out = []
+    for k in range(len(res.dihedrals)):
+        nm = res.reference.dihedrals[k].split()
+        mov = res.get_moveable_names(nm[2]) if res.has_atom(nm[2]) else []
+        out.append(f"(mkdihedral {I(nm[1])} {I(nm[2])} {core.coq_list([I(x) for x in mov])})")
+    return core.coq_list(out), I
+
+
+def coq_angles(dih):
+    return core.coq_list(["None" if a is None else f"(Some {core.float_hex(float(a))})" for a in dih])
+
+
+def traced_debump(db, residue, conflict_names, orig_debump, out):
+    """Run the real Debump.debump_residue with recorders around the REAL score_dihedral_angle,
+    find_residue_conflicts, set_dihedral_angle and quatfit.qchichange, and append the comparison
+    term (Model.Debump.check_debump on the recorded answers) to `out`."""
+    from pdb2pqr import quatfit as pquat
+
+    cls = type(db)
+    trace = {"scores": [], "confs": [], "meas": [], "calls": [], "deltas": [], "result": None}
+    cur = {"n": None}
+    try:
+        dih0 = list(residue.dihedrals)
+        ids = {}
+        residue_dihedral_terms(residue, ids)  # fails early (before anything is patched) on an odd residue
+    except Exception:  # noqa
+        return orig_debump(db, residue, conflict_names)
+
+    def score(res, anglenum):
+        v = cls.score_dihedral_angle(db, res, anglenum)
+        trace["scores"].append(float(v))
+        return v
+
+    def conflicts(res, write_conflict_info=False):
+        v = cls.find_residue_conflicts(db, res, write_conflict_info=write_conflict_info)
+        trace["confs"].append(list(v))
+        return v
+
+    def set_angle(res, anglenum, angle):
+        trace["calls"].append((anglenum, float(angle)))
+        cur["n"] = anglenum
+        cls.set_dihedral_angle(db, res, anglenum, angle)
+        trace["meas"].append(float(res.dihedrals[anglenum]))
+
+    orig_qchi = pquat.qchichange
+
+    def qchi(initcoords, refcoords, angle):
+        trace["deltas"].append((cur["n"], float(angle)))
+        return orig_qchi(initcoords, refcoords, angle)
+
+    db.score_dihedral_angle, db.find_residue_conflicts, db.set_dihedral_angle = score, conflicts, set_angle
+    pquat.qchichange = qchi
+    err = None
+    try:
+        trace["result"] = orig_debump(db, residue, conflict_names)
+        return trace["result"]
+    except Exception as e:  # noqa
+        err = f"{type(e).__name__}: {e}"
+        raise
+    finally:
+        pquat.qchichange = orig_qchi
+        del db.score_dihedral_angle, db.find_residue_conflicts, db.set_dihedral_angle
+        out.append(walk_tie(residue, dih0, list(residue.dihedrals), list(conflict_names), trace, err))
+
+
+def walk_tie(res, dih0, dih1, conflicts0, trace, err):
+    """Coq terms comparing one walk: Model.Debump.check_debump gets the answers the code received and
+    everything the code did with them (result, every (anglenum, angle) passed to set_dihedral_angle,
+    every rotation angle handed to quatfit.qchichange, the final residue.dihedrals), all floats as
+    exact hex literals, and answers "OK" or the first difference."""
+    ids = {}
+    dihs, I = residue_dihedral_terms(res, ids)
+    inputs = (
+        f"{dihs} {coq_angles(dih0)} {core.coq_list([core.float_hex(x) for x in trace['scores']])} "
+        f"{core.coq_list([core.coq_list([I(n) for n in c]) for c in trace['confs']])} "
+        f"{core.coq_list([core.float_hex(x) for x in trace['meas']])} {core.coq_list([I(n) for n in conflicts0])}"
+    )
+
+    def pairs(l):
+        return core.coq_list([f"({n}%nat, {core.float_hex(a)})" for n, a in l])
+
+    term = f"check_debump {inputs} {str(bool(trace['result'])).lower()} {pairs(trace['calls'])} {pairs(trace['deltas'])} {coq_angles(dih1)}"
+    return {
+        "term": term,
+        "show": f"show_debump {inputs}",
+        "exc": err,
+        "residue": str(res),
+        "ncalls": len(trace["calls"]),
+        "nscores": len(trace["scores"]),
+        "nconfs": len(trace["confs"]),
+        "code": f"result={trace['result']} calls={[(n, a) for n, a in trace['calls'][:3]]}... final={dih1}",
+    }
+
+
+def compare_walk_ties(ctx, ties, cases, name="C04d", label="walks"):
+    """Evaluate Model.Debump.debump_residue on the answers each walk received and compare everything
+    the code did with what the model does."""
+    if not ties:
+        return
+    try:
+        outs = core.run_cases(name, DEBUMP_HEADER, [t["term"] for t in ties] + [ties[0]["show"]], chunk=max(4, (len(ties) + 12) // 12))
+    except core.CoqEvalError as e:
+        ctx.broke("correspondence-broken", "Model.Debump.debump_residue vs debump.Debump.debump_residue: model evaluation failed", str(e)[-1500:])
+        return
+    nbad = 0
+    for t, o, case in zip(ties, outs, cases):
+        ctx.cov["correspondence_cases"] += 1
+        ctx.count("debump-tie:set_dihedral_angle calls compared", t["ncalls"])
+        ctx.count("debump-tie:oracle answers consumed", t["nscores"] + t["nconfs"] + t["ncalls"])
+        if t["exc"]:
+            o = f"the code raised {t['exc']}; model: {o}"
+        if o != "OK":
+            ctx.cov["correspondence_disagreements"] += 1
+            nbad += 1
+            if nbad <= 2:
+                ctx.broke("correspondence-broken", "Model.Debump.debump_residue vs debump.Debump.debump_residue", f"{t['residue']} ({t['ncalls']} set_dihedral_angle calls): {o}", case)
+    ctx.count(f"debump-tie:{label} compared", len(ties))
+    t = ties[0]
+    ctx.sample({f"debump_tie ({label})": {"residue": t["residue"], "set_calls": t["ncalls"], "code": t["code"][:300], "model": outs[-1][:300], "verdict": outs[0]}})
+
+
+def pick_ties(ctx, residues, n):
+    """Residue.pick_dihedral_angle vs Model.Debump.pick_dihedral_angle on random conflict lists, previous
+    numbers and missing-dihedral patterns of real residues."""
+    terms, impls, cases = [], [], []
+    for _ in range(n):
+        res, side = ctx.rng.choice(residues)
+        nd = len(res.dihedrals)
+        movers = sorted({x for k in side for x in res.get_moveable_names(res.reference.dihedrals[k].split()[2])})
+        pool = movers + [a.name for a in res.atoms][:3]
+        shape = ctx.rng.random()
+        if shape < 0.25:
+            k = ctx.rng.choice(side)
+            conf = list(res.get_moveable_names(res.reference.dihedrals[k].split()[2]))  # == moveablenames
+            if ctx.rng.random() < 0.3:
+                ctx.rng.shuffle(conf)
+        else:
+            conf = [ctx.rng.choice(pool) for _ in range(ctx.rng.randint(0, 5))]  # duplicates count twice
+        old = ctx.rng.choice([None, -1] + list(range(nd)) * 2)
+        dih0 = list(res.dihedrals)
+        mask = [a if (a is not None and ctx.rng.random() < 0.8) else None for a in dih0]
+        res.dihedrals[:] = mask
+        try:
+            got = str(res.pick_dihedral_angle(list(conf), old))
+        except Exception as e:  # noqa
+            got = f"EXC:{type(e).__name__}"
+        finally:
+            res.dihedrals[:] = dih0
+        ids = {}
+        dihs, I = residue_dihedral_terms(res, ids)
+        oldt = "None" if old in (None, -1) else f"(Some {old}%nat)"
+        terms.append(f"show_pick {dihs} {coq_angles(mask)} {core.coq_list([I(x) for x in conf])} {oldt}")
+        impls.append(got)
+        cases.append({"pick": {"residue": str(res), "conflict_names": conf, "oldnum": old, "dihedrals": mask}})
+        ctx.count(f"pick-tie:oldnum={'none' if old in (None, -1) else 'set'}:result={'-1' if got == '-1' else 'index'}")
+    terms.append("show_constants")
+    try:
+        outs = core.run_cases("C04p", DEBUMP_HEADER, terms, chunk=200)
+    except core.CoqEvalError as e:
+        ctx.broke("correspondence-broken", "Model.Debump.pick_dihedral_angle vs residue.Residue.pick_dihedral_angle: model evaluation failed", str(e)[-1500:])
+        return
+    nbad = 0
+    for got, o, case in zip(impls, outs, cases):
+        ctx.cov["correspondence_cases"] += 1
+        if got != o:
+            ctx.cov["correspondence_disagreements"] += 1
+            nbad += 1
+            if nbad <= 2:
+                ctx.broke("correspondence-broken", "Model.Debump.pick_dihedral_angle vs residue.Residue.pick_dihedral_angle", f"{case['pick']}: code {got} model {o}", case)
+    from pdb2pqr import config as pconfig
+
+    consts = f"{pconfig.DEBUMP_ANGLE_STEPS} {fshow(pconfig.DEBUMP_ANGLE_STEP_SIZE)} {pconfig.DEBUMP_ANGLE_TEST_COUNT} {fshow(pconfig.SMALL_NUMBER)}"
+    ctx.cov["correspondence_cases"] += 1
+    if consts != outs[-1]:
+        ctx.cov["correspondence_disagreements"] += 1
+        ctx.broke("correspondence-broken", "Model.Debump constants vs pdb2pqr/config.py (DEBUMP_ANGLE_STEPS, DEBUMP_ANGLE_STEP_SIZE, DEBUMP_ANGLE_TEST_COUNT, SMALL_NUMBER)", f"code {consts} model {outs[-1]}")
+
+
+def debump_walk_case(ctx, db, res, script, conflicts0, label, ties=None):
     atoms = [a for a in res.atoms]
     before = {a.name: (a.x, a.y, a.z) for a in atoms}
     dih0 = list(res.dihedrals)
     err = None
+    trace = {}
     try:
-        run_walk(db, res, script, conflicts0)
+        run_walk(db, res, script, conflicts0, trace)
     except Exception as e:  # noqa
         err = f"{type(e).__name__}: {e}"
     after = {a.name: (a.x, a.y, a.z) for a in atoms}
+    if ties is not None:
+        ties.append(walk_tie(res, dih0, list(res.dihedrals), conflicts0, trace, err))
     fails = _rigid_failures(res, before, after)
     # undo: walks are independent of each other
     for a in atoms:
@@ -453,19 +750,37 @@ def debump_walk_case(ctx, db, res, script, conflicts0, label):
     return bool(fails)
 
 
-def debump_walks(ctx, n):
+def debump_walks(ctx, n, tie_n=400):
+    """n scripted walks checked by the geometry oracle; the first tie_n are also compared with the Coq
+    model. If that comparison breaks, the geometry search continues at high volume."""
     try:
         bm, db, residues = _walk_fixture()
     except Exception as e:  # noqa
         ctx.broke("correspondence-broken", "debump walk fixture (tests/data/1AJJ.pdb through setup_molecule/Debump)", f"{type(e).__name__}: {e}")
         return
     multi = [(r, s) for r, s in residues if len(s) >= 2]
-    for w in range(n):
-        res, side = ctx.rng.choice(multi if (multi and ctx.rng.random() < 0.8) else residues)
-        script, conflicts0 = gen_script(ctx.rng, res, side)
-        bad = debump_walk_case(ctx, db, res, script, conflicts0, f"#{w}")
-        if w == 0:
-            ctx.sample({"debump_walk": {"residue": str(res), "script": script, "conflicts0": conflicts0, "rigid": not bad}})
+    ties, cases = [], []
+
+    def walks(k, first):
+        for w in range(first, first + k):
+            res, side = ctx.rng.choice(multi if (multi and ctx.rng.random() < 0.8) else residues)
+            script, conflicts0 = gen_script(ctx.rng, res, side)
+            tied = w < tie_n
+            bad = debump_walk_case(ctx, db, res, script, conflicts0, f"#{w}", ties if tied else None)
+            if tied:
+                cases.append({"walk": {"residue": str(res), "script": script, "conflicts0": conflicts0}, "label": f"#{w}"})
+            if w == 0:
+                ctx.sample({"debump_walk": {"residue": str(res), "script": script, "conflicts0": conflicts0, "rigid": not bad}})
+
+    walks(n, 0)
+    before = len(ctx.broken)
+    compare_walk_ties(ctx, ties, cases)
+    pick_ties(ctx, residues, 3000 if n > 1000 else 600)
+    if len(ctx.broken) > before and n < 4000:
+        # the model no longer describes the code: only the model-independent search can tell whether the property fails
+        walks(4000 - n, n)
+        ctx.count("debump-walk:escalated-after-broken-tie", 4000 - n)
+
 
 def call_term(c, ids):
     def I(n):
@@ -485,11 +800,15 @@ def run(ctx):
     ctx.cov["rule"] = (
         "exhaustive: every amino-acid template x dihedral x 4 terminus-flag combinations, moveable set of the real code (fake residues built from "
         "Definition.map) vs the Coq model; every Debump.set_dihedral_angle call of real runs replayed in the model; every input heavy atom of real runs "
-        "checked (exact for backbone/caps/no-op modes, rigid geometry otherwise). Non-trivial = a template pair with a non-empty moved set, a distinct "
-        "observed call, or a distinct input heavy atom of a run"
+        "checked (exact for backbone/caps/no-op modes, rigid geometry otherwise). Debump walks: debump_residue on a random real residue of 1AJJ "
+        "(80% with >= 2 side-chain dihedrals) with a random script of 1-10 attempts (modes none/improve/improve2/tie/zero-conflict/zero-clear at steps "
+        "1,2,17,35,36,70,71, random conflict names); each walk is checked by the geometry oracle AND compared with Model.Debump.debump_residue on the "
+        "answers it received; pick_dihedral_angle is compared on random conflict lists / oldnum / missing-dihedral masks. Non-trivial = a template "
+        "pair with a non-empty moved set, a distinct observed call, a distinct input heavy atom of a run, or a walk with >= 2 attempts, >= 1 accepted "
+        "and moved atoms"
     )
     gen_ok = c01.regenerate(ctx, "ff_tables,topology,moves_table")
-    ok = core.proof_stage(ctx, "C04", THEOREMS, []) if gen_ok else False
+    ok = core.proof_stage(ctx, "C04", THEOREMS, ALLOWED_AXIOMS) if gen_ok else False
     if not gen_ok:
         ctx.obligations.extend(THEOREMS)
     from common import load_definition
@@ -529,6 +848,7 @@ def run(ctx):
     # --- (B)+(C)
     inputs = THOROUGH if (ctx.thorough or not ok or corr_broken) else QUICK
     seen_calls = {}
+    real_ties = []
     for pdb, extra, noop in inputs:
         run_ = real_run(ctx, pdb, extra)
         if run_["err"]:
@@ -546,7 +866,13 @@ def run(ctx):
             elif noop:
                 ctx.fail({"site": site, "condition": "moved-in-noop-mode", "mode": " ".join(x for x in extra if not x.startswith("--ff"))}, f"{pdb} {' '.join(extra)}: side-chain rotation executed in a no-op mode", {"pdb": pdb, "args": extra})
         geometry_oracle(ctx, pdb, extra, noop, run_, definition)
-    debump_walks(ctx, 4000 if (ctx.thorough or not ok or corr_broken or ctx.broken) else 400)
+        for t in run_["debump_ties"]:
+            t["case"] = {"pdb": pdb, "args": extra, "residue": t["residue"]}
+            real_ties.append(t)
+    if real_ties and gen_ok:
+        ctx.count("debump-tie:real debump_residue calls (real scores/conflicts)", len(real_ties))
+        compare_walk_ties(ctx, real_ties, [t["case"] for t in real_ties], name="C04e", label="real runs")
+    debump_walks(ctx, 4000 if (ctx.thorough or not ok or corr_broken or ctx.broken) else 400, tie_n=4000 if ctx.thorough else 400)
     if seen_calls and gen_ok:
         calls = list(seen_calls.values())
         hdr = HEADER + "From PV Require Import Lib.Decimal.\nDefinition show_ids (l : list id) : string := String.concat \" \" (map (fun i => Z_to_string (Zpos i)) l).\n"
@@ -574,6 +900,8 @@ def run(ctx):
         "generators gen/topology.py + gen/moves_table.py (Definition.map dumped through the repo loader, cross-checked against the XML text)",
         "rotation about the axis is an isometry fixing the axis: theorem C15 (rot_isometry, rot_fixes_axis over R); float rounding not verified",
         "no-op modes and 'no other writer of input heavy atoms': observed by the monitor on a fixed set of runs, not proved",
+        "Model/Debump.v (hand model of debump_residue / pick_dihedral_angle / set_dihedral_angle) tied by differential execution on scripted walks; "
+        "the hypothesis 'measured dihedral = requested angle mod 360' of the net-rotation theorems is not proved (it is C15's torsion_addition in exact arithmetic)",
     ]
     ctx.assumptions += ["hydrogen = name starts with 'H' (structures.Atom.is_hydrogen)", "disulfide (inter-residue) bonds are outside the rigidity lemma"]
 
@@ -597,7 +925,13 @@ def py_rigid_violation(definition, label, moved, heavy_only):
 
 
 def replay(ctx, data):
-    case = data["case"]
+    case = data.get("case")
+    if case is None:
+        # a proof-/correspondence-broken payload: replay the first disagreeing case it carries
+        case = next((b["case"] for b in data.get("broken", []) if b.get("case")), None)
+        if case is None:
+            print("replay: the payload carries no input (a proof or generator stage broke): run ./check C04")
+            return 1
     import sys
 
     sys.path.insert(0, str(core.VERIF / "gen"))
@@ -610,13 +944,36 @@ def replay(ctx, data):
         why = py_rigid_violation(definition, case["template"], mv.split(), True)
         print(f"replay: {case['template']} moved=[{mv}] ->", "FAILS: " + why if why else "passes")
         return 1 if why else 0
+    if "pick" in case:
+        bm, db, residues = _walk_fixture()
+        pk = case["pick"]
+        for res, side in residues:
+            if str(res) == pk["residue"]:
+                dih0 = list(res.dihedrals)
+                res.dihedrals[:] = pk["dihedrals"]
+                try:
+                    got = str(res.pick_dihedral_angle(list(pk["conflict_names"]), pk["oldnum"]))
+                finally:
+                    res.dihedrals[:] = dih0
+                ids = {}
+                dihs, I = residue_dihedral_terms(res, ids)
+                oldt = "None" if pk["oldnum"] in (None, -1) else f"(Some {pk['oldnum']}%nat)"
+                out = core.run_cases("C04r", DEBUMP_HEADER, [f"show_pick {dihs} {coq_angles(pk['dihedrals'])} {core.coq_list([I(x) for x in pk['conflict_names']])} {oldt}"])[0]
+                print(f"replay: pick_dihedral_angle code {got} model {out}")
+                return 1 if got != out else 0
+        print("replay: residue not found")
+        return 1
     if "walk" in case:
         bm, db, residues = _walk_fixture()
         for res, side in residues:
             if str(res) == case["walk"]["residue"]:
-                bad = debump_walk_case(ctx, db, res, case["walk"]["script"], case["walk"]["conflicts0"], "replay")
-                print("replay:", "FAILS" if bad else "passes", [f["what"] for f in ctx.failures][:3])
-                return 1 if bad else 0
+                ties = []
+                bad = debump_walk_case(ctx, db, res, case["walk"]["script"], case["walk"]["conflicts0"], "replay", ties)
+                compare_walk_ties(ctx, ties, [case])
+                print("replay:", "FAILS" if bad else "geometry passes", [f["what"] for f in ctx.failures][:3])
+                for b in ctx.broken:
+                    print("replay: model and code disagree:", b["what"], "-", b["detail"])
+                return 1 if (bad or ctx.broken) else 0
         print("replay: residue not found")
         return 1
     run_ = real_run(ctx, case["pdb"], case["args"])
